@@ -32,7 +32,7 @@ CHECKS = {
     },
     "C02": {
         "module": "Vanguard.Props.C02", "namespace": "Vanguard.C02", "streams": ["e2e"],
-        "partial": "negotiation, the backend's Content-Type, the announcement of a negotiated compression and the absence of left-over control headers of the client's protocol are proved; envelopes of the backend body (flags, lengths against bytes) and the request line are an oracle on the implementation plus correspondence",
+        "partial": "negotiation, the backend's Content-Type, the announcement of a negotiated compression and the absence of left-over control headers of the client's protocol are proved; the body a backend with envelopes reads for a well-formed request is proved well framed on both paths (flag 0/1, big-endian length = payload size, any read sizes); the compressed flag against the bytes, malformed requests and the request line are an oracle on the implementation plus correspondence",
         "assumptions": E2E_ASSUME,
     },
     "C05": {
